@@ -323,7 +323,8 @@ def run(chk: Check) -> None:
     # Expires synchronised from Max-Age (sync_expires, the default): present exactly when max_age is given
     # (0 and timedelta(0) included) and no explicit expires; its instant is now + max_age
     import datetime as _dt
-    for ma in [0, 1, 3600, -1, _dt.timedelta(0), _dt.timedelta(seconds=5), _dt.timedelta(milliseconds=300), None] * (3 if quick else 30):
+    for ma in [0, 1, 3600, -1, _dt.timedelta(0), _dt.timedelta(seconds=5), _dt.timedelta(milliseconds=300), None,
+               _dt.timedelta(days=1), _dt.timedelta(days=2, seconds=5), _dt.timedelta(days=400, hours=3), _dt.timedelta(days=-1), 86400 * 366] * (3 if quick else 30):
         for exp in (None, "Thu, 01 Jan 2026 00:00:00 GMT", 0):
             t0 = _dt.datetime.now(tz=_dt.timezone.utc).timestamp()
             hdr = whttp.dump_cookie("k", "v", max_age=ma, expires=exp, path=None)
